@@ -1,6 +1,7 @@
 import McpModel.Base.Proto
 import McpModel.ClientStream.Monitor
 import McpModel.ClientStream.ScnOK
+import McpModel.ClientStream.Pair
 /-!
 Driver for E6 (C09).  Replays the harness's records on the model (`ClientStream.run`, one `step` per
 HTTP exchange) and evaluates the C09 monitor on the IMPLEMENTATION's observations.  The monitor itself
@@ -15,6 +16,7 @@ Records of one case (see go/harness/mcp/zz_verif_clientstream_test.go):
       is=   (terr) what the error answered to errors.Is(Canceled) / errors.Is(DeadlineExceeded) / Timeout()
       junk= (ok:0:<term>) a foreign answer: the bytes of a body that is no SSE stream; accepted only if the model's
             scanner makes of it what it makes of an empty body (no event, same end) — else `bad-op`
+  bg sent=<labels>   (bg=call) the second call stream                                            obs got=<labels|-> end=<result:RB|err:..|hang>
   c t=<µs>      the caller's context was cancelled while no request was in flight                obs ok
   delivered atret=<n>                                                                            obs <labels|->
   end                                                                                            obs result:R | ok | err:<kind> | hang
@@ -187,6 +189,7 @@ def engine : Engine DState where
         match kv rest "bg" with
         | none => pure ()
         | some "sahang" => if kind = "post" && mr ≥ 0 then pure () else none
+        | some "call" => if kind = "post" && mr ≥ 0 then pure () else none
         | some _ => none
         if bodyFrom items 0 != full then none
         let scn : Scn String := { lab := strLabels, sa := kind == "sa", mr := Generated.ClientStream.maxRetriesOf mr, items := items }
@@ -249,6 +252,16 @@ def engine : Engine DState where
           if l = [] then "-" else " ".intercalate l
         | none => "-"
       (d, { model := model, violated := (monStep d.scn d.mon (.delivered implL)).2.map Clause.text })
+    | ["bg", sent] =>
+      -- the second call stream (bg=call): `bg sent=<labels>`   obs got=<labels|-> end=<result:RB|…>
+      let sentL := match kv [sent] "sent" with | some x => (x.splitOn ",").filter (· ≠ "") | none => []
+      let w := words impl
+      let got := match kv w "got" with | some "-" => [] | some x => (x.splitOn ",").filter (· ≠ "") | none => ["?"]
+      let own := kv w "end" == some "result:RB"
+      let clause : Option String := (bgMon sentL { got := got, own := own }).map (fun
+        | .order => "C09: delivered_exactly_once_in_order (second call stream, cut at the same time): its messages did not reach the session exactly once and in order (cross-talk between the resumed streams, a loss or a duplicate)"
+        | .reply => "C01+C09: the second call (its stream cut at the same time, its resumption slow) did not complete with its own response")
+      (d, { model := s!"got={",".intercalate sentL} end=result:RB", violated := clause })
     | ["end"] =>
       let model := match d.run with
         | some run => endName d.scn.sa run.phase
